@@ -106,3 +106,23 @@ func (r *Router) VerifExpireHello(remote netip.Addr) {
 		state.expires = time.Now().Add(-time.Second)
 	}
 }
+
+// VerifAgeConnStates simulates the passage of time by moving the time stamps
+// of all connection state entries back by d.
+// Verification hook: only compiled with the "verif" build tag.
+func (r *Router) VerifAgeConnStates(d time.Duration) {
+	r.connStatesLock.Lock()
+	defer r.connStatesLock.Unlock()
+
+	secs := int64(d / time.Second)
+	for _, entry := range r.connStates {
+		entry.firstSeen -= secs
+		entry.lastSeen.Store(entry.lastSeen.Load() - secs)
+	}
+}
+
+// VerifCleanConnStates runs one tick of the connection state cleaner.
+// Verification hook: only compiled with the "verif" build tag.
+func (r *Router) VerifCleanConnStates() {
+	r.cleanConnStates()
+}
